@@ -90,7 +90,8 @@ def decode_update(msg: bytes, addpath=lambda afi, safi: False):
             safi = val[2]
             nhl = val[3]
             nh = val[4 : 4 + nhl]
-            assert val[4 + nhl] == 0, 'reserved'
+            # RFC 4760 section 3: the Reserved octet "MUST be set to 0, and SHOULD be ignored upon receipt" (this line used to
+            # assert that it is zero, as the code did)
             lab = safi in (4, 128)
             rest = val[5 + nhl :]
             # other NLRI formats (flow, vpls, evpn, ...) are not <length, prefix> lists: kept as one raw entry
